@@ -33,10 +33,12 @@ def ref_cells_in_raster_order(tree):
     for c in cells:   # sorted by (row, col)
         if c[5] == "reference":
             out.append(c02.node_at(tree, c[4]))
+        elif c[5].startswith("raised:"):
+            out.append(None)
     return out
 
 
-def check_doc(text, scales=(1, 2, Fraction(3, 2), 1.0, 0.5), descs=None):
+def check_doc(text, scales=(1, 2, Fraction(3, 2), 1.5, 1.0, 0.5), descs=None):
     out = []
     try:
         mr = M.compile_markdown(text)
@@ -74,6 +76,9 @@ def check_doc(text, scales=(1, 2, Fraction(3, 2), 1.0, 0.5), descs=None):
                 ids[n.attrs["id"]].append(n)
         for i, ((gi, tree), table) in enumerate(zip(trees, tables)):
             refs = ref_cells_in_raster_order(tree)
+            if any(r is None for r in refs):
+                out.append(("C09:table-shows-a-node-that-is-not-in-its-tree", "table %d at scale %r: a reference cell shows a node of another tree (or the layout raised)" % (i, k)))
+                continue
             links = [a for td in table.iter() if td.tag == "td" and "rg-reference" in td.classes() for a in td.children if not isinstance(a, str) and a.tag == "a"]
             if len(refs) != len(links):
                 out.append(("C09:reference-cell-without-link", "table %d: %d reference cells, %d links" % (i, len(refs), len(links))))
